@@ -8,6 +8,7 @@
  *     refused because the write buffer was full may be missing), unless the daemon closed the connection, in which case a
  *     prefix ending anywhere is legal;
  *   - the owner and a second subscriber are unaffected (identical streams). */
+#define _GNU_SOURCE
 #include <stdlib.h>
 #include <string.h>
 
@@ -225,7 +226,9 @@ static void run_responses(void)
 		w = 1 + (w % 97);
 	}
 	int reopen = xp_choose(2, XP_SCENARIO, "window-reopens-afterwards");
-	snprintf(what, sizeof(what), "%s requester, request form %d, the kernel accepts %d byte(s) of the answer%s (write buffer %d bytes)", ws ? "websocket" : "raw", form, w, reopen ? ", later everything" : "", (int)CONFIG_MAX_WRITE_BUFFER_SIZE);
+	int kmode = xp_choose(2, XP_SCENARIO, "kernel-behaviour"); /* 0: w bytes in total, then would block; 1: the next writev takes only w bytes, every later one everything (a short write) */
+	int own = xp_choose(2, XP_SCENARIO, "requester-owns-and-fetches-states"); /* the requester also owns three states and subscribes to them itself */
+	snprintf(what, sizeof(what), "%s requester%s, request form %d, the kernel accepts %d byte(s) of the answer (%s)%s (write buffer %d bytes)", ws ? "websocket" : "raw", own ? " that owns and fetches states of its own" : "", form, w, kmode ? "one short write, then everything" : "then would block", reopen ? ", later everything" : "", (int)CONFIG_MAX_WRITE_BUFFER_SIZE);
 	int twin = xp_twin_begin();
 	struct sim_opts o = {0};
 	jx_boot(&o);
@@ -239,6 +242,13 @@ static void run_responses(void)
 		}
 	}
 	jx_settle();
+	if (own) {
+		for (int i = 0; i < 3; i++) {
+			jx_sendf(S, "{\"id\":\"own%d\",\"method\":\"add\",\"params\":{\"path\":\"own/%d\",\"value\":%d}}", i, i, i);
+		}
+		jx_sendf(S, "{\"id\":\"ownf\",\"method\":\"fetch\",\"params\":{\"id\":\"mine\",\"path\":{\"startsWith\":\"own/\"}}}");
+		jx_settle();
+	}
 	const char *get = "{\"id\":\"g\",\"method\":\"get\",\"params\":{\"path\":{\"startsWith\":\"big/\"}}}";
 	const char *info = "{\"id\":\"i\",\"method\":\"info\"}", *info2 = "{\"id\":\"j\",\"method\":\"info\"}";
 	char rq[600];
@@ -259,7 +269,11 @@ static void run_responses(void)
 		snprintf(rq, sizeof(rq), "%s", get);
 	}
 	if (!twin) {
-		sim_set_window(S, w);
+		if (kmode) {
+			sim_write_cap_once(S, w);
+		} else {
+			sim_set_window(S, w);
+		}
 	}
 	if (form == 5) {
 		struct bytebuf b = {0};
@@ -295,50 +309,78 @@ static void run_responses(void)
 	xp_twin_end(&mine, &other);
 	bb_append(&mine, "", 1);
 	bb_append(&other, "", 1);
-	struct client *c = &clients[S];
 	const struct bytebuf *raw = sim_conn_output(S);
 	bool closed = sim_conn_closed_by_daemon(S);
-	if (c->frame_violation[0]) {
-		fail10("server-frame-malformed:response", "%s", c->frame_violation);
-	}
-	if (raw->len != c->consumed && !closed) {
-		char key[100];
-		snprintf(key, sizeof(key), "torn-frame-in-open-connection:response:%s", ws ? "ws" : "raw");
-		fail10(key, "the connection is still open after everything was flushed but %zu trailing byte(s) of its stream are not a complete frame", raw->len - c->consumed);
-	}
-	for (int i = 0; i < c->nmsgs; i++) {
-		if ((!ws || c->msgs[i].wsop == 1) && c->msgs[i].json == NULL) {
-			char key[100];
-			snprintf(key, sizeof(key), "frame-content-damaged:response:%s", ws ? "ws" : "raw");
-			fail10(key, "frame %d of the requester's stream is not the JSON text of one message (a cut-off frame followed by other data?): %.120s", i, c->msgs[i].text);
-		}
-	}
 	char *ms = strstr((char *)mine.p, "== S2"), *os = strstr((char *)other.p, "== S2");
 	if (ms == NULL || os == NULL || strcmp(ms, os) != 0) {
 		fail10("other-connections-affected:response", "the bystander's stream differs from the run without the limit");
 	}
 	*ms = 0;
 	*os = 0;
+	/* E: the byte stream the requester gets without the limit, rebuilt from the twin's messages (server frames: unmasked, final, minimal
+	 * length); A: what it got.  Open connection: A = E.  Closed connection: A is a prefix of E, cut anywhere - nothing but the
+	 * beginning of a frame follows the last whole frame. */
+	struct bytebuf E = {0};
+	size_t bounds[400];
+	int nb = 0;
+	for (char *sv = NULL, *l = strtok_r((char *)other.p, "\n", &sv); l != NULL; l = strtok_r(NULL, "\n", &sv)) {
+		if (ws) {
+			cl_frame_ws(&E, 1, true, 0, false, 0, l, strlen(l));
+		} else {
+			cl_frame_raw(&E, l, strlen(l));
+		}
+		if (nb < 400) {
+			bounds[nb++] = E.len;
+		}
+	}
+	size_t off = 0;
+	if (ws) {
+		const uint8_t *h = memmem(raw->p, raw->len, "\r\n\r\n", 4);
+		if (h == NULL) {
+			xp_harness_error("no handshake response in the requester's stream");
+		}
+		off = (size_t)(h - raw->p) + 4;
+	}
+	const uint8_t *A = raw->p + off;
+	size_t alen = raw->len - off, cp = 0;
+	while (cp < alen && cp < E.len && A[cp] == E.p[cp]) {
+		cp++;
+	}
+	bool at_boundary = cp == 0;
+	for (int k = 0; k < nb; k++) {
+		at_boundary |= bounds[k] == cp;
+	}
 	if (!closed) {
-		if (strcmp((char *)mine.p, (char *)other.p) != 0) {
-			xp_logf("---- limited ----\n%.3000s\n---- unlimited ----\n%.3000s", (char *)mine.p, (char *)other.p);
-			fail10("open-connection-stream-differs:response", "the connection stayed open, so every answer could be completed - but its stream differs from the run without the limit");
+		if (cp != alen || alen != E.len) {
+			char key[120];
+			snprintf(key, sizeof(key), "%s:response:%s", cp == alen ? "torn-frame-in-open-connection" : "open-connection-stream-differs", ws ? "ws" : "raw");
+			fail10(key, "the connection stayed open, so every answer could be completed - but its stream (%zu bytes) equals the stream of the run without the limit (%zu bytes) only in the first %zu bytes", alen, E.len, cp);
 		}
 		xp_count("answer_completed", 1);
 	} else {
-		/* whole frames received must be a prefix of the twin's frames */
-		if (strncmp((char *)mine.p, (char *)other.p, strlen((char *)mine.p)) != 0) {
-			fail10("closed-connection-stream-not-a-prefix:response", "the daemon closed the connection; the whole frames it sent before are not a prefix of the frames of the run without the limit");
+		if (cp != alen) {
+			size_t rest = alen - cp;
+			bool close_frame = ws && rest == 4 && A[cp] == 0x88 && A[cp + 1] == 0x02;
+			if (close_frame && at_boundary) {
+				xp_count("closed_with_a_close_frame_between_frames", 1);
+			} else if (close_frame) {
+				fail10("ws-close-frame-follows-cut-off-frame:response", "%zu bytes into the stream a frame is cut off (the kernel took only part of it and the rest did not fit the write buffer) and a websocket close frame (status %d) follows it before the connection is closed: part of a frame followed by other data", cp, (A[cp + 2] << 8) | A[cp + 3]);
+			} else {
+				char key[120];
+				snprintf(key, sizeof(key), "cut-off-frame-followed-by-other-data:response:%s", ws ? "ws" : "raw");
+				fail10(key, "the daemon closed the connection; its stream equals the stream of the run without the limit in the first %zu bytes (%s a frame boundary), then %zu other byte(s) follow", cp, at_boundary ? "at" : "not at", rest);
+			}
 		}
 		xp_count("connection_closed_because_a_frame_could_not_be_completed", 1);
 	}
+	bb_free(&E);
 	jx_close_all();
 	jx_check_idle_baseline("left-behind:");
 	jx_check_hygiene("hygiene:");
 	xp_nontrivial();
 	xp_transition();
 	xp_outcome(hash64(raw->p, raw->len, 10));
-	xp_state(hash_mix((uint64_t)form * 100000 + (uint64_t)w * 4 + (uint64_t)ws * 2 + (uint64_t)reopen, 3));
+	xp_state(hash_mix((uint64_t)form * 100000 + (uint64_t)w * 4 + (uint64_t)ws * 2 + (uint64_t)reopen, 3 + 8 * (uint64_t)kmode + 16 * (uint64_t)own));
 }
 
 static void run_all(void)
@@ -354,6 +396,6 @@ const struct driver drv_c10s = {
     .name = "c10s",
     .property = "C10",
     .run = run_all,
-    .rule = "daemon level: an owner changes a state 10 times (value sizes 1..80 bytes) plus another state; subscriber S (raw / websocket) and a second subscriber of the other transport watch; for every step p, every window w in {0,1,2,3,4,5,7,10,25,40,60,95,96,97,130,200} bytes and every later step q the kernel accepts only w bytes on S's connection from p on and everything again from q on, with or without an answerless message from S arriving in the same event as the writability (deviation: limited a second time later); when the window has reopened and the daemon is idle S's stream ends on a frame boundary; compared with the unlimited twin: S's stream decodes into complete frames, its frames are a subsequence of the twin's frames in order (prefix if the daemon closed it), the other connections see identical streams; non-trivial = all runs | section 1: a requester (raw / websocket) asks for an answer of one big frame (get over 70 states, ~6 KB) alone, at every position of a batch, or followed by another request in the same chunk, while the kernel accepts only w bytes (14 windows around frame size minus write buffer) and later everything or not: either the connection stays open and its stream equals the unlimited twin's, or the daemon closed it and the requester holds whole frames that are a prefix of the twin's plus at most one cut-off frame at the very end; the bystander is unaffected",
+    .rule = "daemon level: an owner changes a state 10 times (value sizes 1..80 bytes) plus another state; subscriber S (raw / websocket) and a second subscriber of the other transport watch; for every step p, every window w in {0,1,2,3,4,5,7,10,25,40,60,95,96,97,130,200} bytes and every later step q the kernel accepts only w bytes on S's connection from p on and everything again from q on, with or without an answerless message from S arriving in the same event as the writability (deviation: limited a second time later); when the window has reopened and the daemon is idle S's stream ends on a frame boundary; compared with the unlimited twin: S's stream decodes into complete frames, its frames are a subsequence of the twin's frames in order (prefix if the daemon closed it), the other connections see identical streams; non-trivial = all runs | section 1: a requester (raw / websocket) asks for an answer of one big frame (get over 70 states, ~6 KB) alone, at every position of a batch, or followed by another request in the same chunk, while the kernel accepts only w bytes (14 windows around frame size minus write buffer; in total and then blocks, or as one short write after which it takes everything) and later everything or not, the requester optionally owning and fetching states of its own: either the connection stays open and its stream equals the unlimited twin's, or the daemon closed it and the requester holds whole frames that are a prefix of the twin's plus at most one cut-off frame at the very end whose bytes are the beginning of the twin's next frame and nothing else; the bystander is unaffected",
     .assumptions = "frames the daemon refused to queue for S (write buffer full) may be missing from S's stream; that S then has an incomplete replica is C11's / C01's subject",
 };
